@@ -63,7 +63,7 @@ const MODS: &[Mod] = &[
   },
 ];
 
-fn packages(variants: &[usize], two_entrypoints: bool) -> Vec<FcPackage> {
+fn packages(variants: &[usize], two_entrypoints: bool, workspace: bool) -> Vec<FcPackage> {
   let files = |pkg: &str| -> Vec<(String, String)> {
     MODS
       .iter()
@@ -77,8 +77,8 @@ fn packages(variants: &[usize], two_entrypoints: bool) -> Vec<FcPackage> {
     a_exports.push(("./c".to_string(), "./c.ts".to_string()));
   }
   vec![
-    FcPackage { name: "@s/a".into(), version: "1.0.0".into(), files: files("@s/a"), exports: a_exports },
-    FcPackage { name: "@s/b".into(), version: "1.0.0".into(), files: files("@s/b"), exports: vec![(".".to_string(), "./mod.ts".to_string())] },
+    FcPackage { name: "@s/a".into(), version: "1.0.0".into(), files: files("@s/a"), exports: a_exports, workspace },
+    FcPackage { name: "@s/b".into(), version: "1.0.0".into(), files: files("@s/b"), exports: vec![(".".to_string(), "./mod.ts".to_string())], workspace: false },
   ]
 }
 
@@ -172,6 +172,7 @@ fn body(depth: usize) -> impl Fn(&Ch) -> Run + Sync + Send {
   move |ch: &Ch| {
     let mut run = Run::default();
     let two_entrypoints = ch.flag("two_entrypoints");
+    let workspace = ch.flag("package_a_is_a_workspace_member");
     let cache = RecordingFcCache::default();
     let mut variants = vec![0usize; MODS.len()];
     let mut history: Vec<String> = vec![];
@@ -199,13 +200,13 @@ fn body(depth: usize) -> impl Fn(&Ch) -> Run + Sync + Send {
       } else {
         history.push("run".into());
       }
-      let pkgs = packages(&variants, two_entrypoints);
+      let pkgs = packages(&variants, two_entrypoints, workspace);
       let Some(with_cache) = fast_check(&pkgs, Some(&cache), ch) else { break };
       let Some(without) = fast_check(&pkgs, None, ch) else { break };
       let Some(without2) = fast_check(&pkgs, None, ch) else { break };
       run.evals += 3;
       let case = |extra: Value| {
-        json!({"two_entrypoints": two_entrypoints, "history": history,
+        json!({"two_entrypoints": two_entrypoints, "package_a_is_a_workspace_member": workspace, "history": history,
           "sources": pkgs.iter().flat_map(|p| p.files.iter().map(|(f, s)| json!([p.url(f), s]))).collect::<Vec<_>>(),
           "cache_traffic": cache.log.borrow().clone(),
           "with_cache": with_cache.modules.iter().map(|(u, (_, s))| (u.clone(), slot_brief(s))).collect::<BTreeMap<_, _>>(),
@@ -228,13 +229,15 @@ fn body(depth: usize) -> impl Fn(&Ch) -> Run + Sync + Send {
         });
         // recorded defect: a cached *failure* of the importing package hides
         // the dependency package from analysis
-        let a_failed = |m: &BTreeMap<String, Value>| m.iter().filter(|(k, _)| k.contains("/@s/a/")).all(|(_, v)| v.is_string());
+        let a_prefix = pkgs[0].url("/");
+        let b_prefix = pkgs[1].url("/");
+        let a_failed = |m: &BTreeMap<String, Value>| m.iter().filter(|(k, _)| k.starts_with(&a_prefix)).all(|(_, v)| v.is_string());
         let dep_pkg_hidden = only_presence
           && a_failed(&a)
           && a_failed(&b)
           && a.iter().all(|(k, v)| {
             let w = b.get(k).unwrap_or(&Value::Null);
-            v == w || (k.contains("/@s/b/") && v.is_string() && !w.is_string())
+            v == w || (k.starts_with(&b_prefix) && v.is_string() && !w.is_string())
           });
         run.violate(
           if dep_pkg_hidden {
@@ -252,11 +255,11 @@ fn body(depth: usize) -> impl Fn(&Ch) -> Run + Sync + Send {
       }
       outcome.push(hash_of(&format!("{b:?}")));
     }
-    run.state_key = hash_of(&(two_entrypoints, &history));
+    run.state_key = hash_of(&(two_entrypoints, workspace, &history));
     run.nontrivial = history.len() >= 2;
     run.outcome_key = hash_of(&outcome);
     if ch.describe() {
-      run.sample = Some(json!({"two_entrypoints": two_entrypoints, "history": history, "cache_traffic": cache.log.borrow().clone()}));
+      run.sample = Some(json!({"two_entrypoints": two_entrypoints, "package_a_is_a_workspace_member": workspace, "history": history, "cache_traffic": cache.log.borrow().clone()}));
     }
     run
   }
@@ -284,13 +287,13 @@ pub fn prop(tier: Tier) -> Prop {
     rule: format!("state = operation history of length <= {depth} over a two-package world (@s/a: mod.ts re-exporting a.ts, c.ts as optional second entrypoint, helper h.ts; @s/b imported by a.ts) with 2-3 source variants per module (clean / diagnostic-bearing / clean with different exports or imports); operations = run again, or edit one module to another variant and run; the fast-check cache is shared along the history (cold, warm, stale). After every operation: all-or-nothing per package (with and without cache), recorded dependencies of each emitted module = dependencies declared by its emitted text (re-analysed), with-cache result = cache-less result (set of modules with output / diagnostics, text, dependencies, source map), two cache-less runs identical. Histories are enumerated completely. Non-trivial = history of >= 2 operations."),
     assumptions: vec![
       "each operation rebuilds the graph from the current sources (an edit changes what the registry serves) and runs fast check against the shared cache".into(),
-      "workspace members (WorkspaceFastCheckOption::Enabled) and fast_check_dts are not part of the world".into(),
+      "@s/a is either published to the registry or a local workspace member (file: URLs, WorkspaceFastCheckOption::Enabled); fast_check_dts is not part of the world".into(),
     ],
     parts: vec![Part {
       name: "histories",
       body: Box::new(body(depth)),
       modes: vec![Mode::Full],
-      what: "all operation histories up to the depth, one and two entrypoints",
+      what: "all operation histories up to the depth, one and two entrypoints, @s/a as registry package and as workspace member",
     }],
     termination_property: false,
     min_outcomes: 6,
